@@ -1455,3 +1455,91 @@ class GoRich:
         out.append("func main() {\n\t" + "\n\t".join(body) + "\n}")
         self.note("func")
         return "\n".join(out) + "\n"
+
+
+# ------------------------------------------------------------------ XGo overload declarations (deterministic enumeration, direct oracle only)
+
+def overload_family():
+    """[(name, xgo source)]: overload declarations of every style -- function overloads with named / literal /
+    mixed candidates (2 and 3 of them), method overloads on pointer and value receivers, a function and a method
+    overload of the same name in both orders, method overloads of the same name on two types, operator overloads --
+    each with calls through the overload identifier.  The enumeration is fixed (not seeded): every overload with a
+    NAMED candidate records a synthesised *ast.BasicLit without position in Info.Types on the unchanged tree
+    (finding R7), so this dimension cannot be generated at random.  Class-file overloads are not covered (they
+    need a registered class-file project)."""
+    TY = [("int", "1", "2"), ("string", '"a"', '"b"'), ("float64", "1.5", "2.5")]
+    out = []
+
+    def named_func(nm, i):
+        t = TY[i][0]
+        return "func %s(a, b %s) %s {\n\treturn a\n}\n" % (nm, t, t)
+
+    def lit_func(i):
+        t = TY[i][0]
+        return "\tfunc(a, b %s) %s {\n\t\treturn b\n\t}" % (t, t)
+
+    for pat in ("NN", "NNN", "LL", "LLL", "NL", "LN", "NLN", "LNL"):
+        decls, cands, calls = [], [], []
+        for i, k in enumerate(pat):
+            if k == "N":
+                decls.append(named_func("cand%d" % i, i))
+                cands.append("\tcand%d" % i)
+            else:
+                cands.append(lit_func(i))
+            calls.append("over(%s, %s)" % (TY[i][1], TY[i][2]))
+        src = "\n".join(decls) + "\nfunc over = (\n" + "\n".join(cands) + "\n)\n\necho " + ", ".join(calls) + "\n"
+        out.append(("ov-func-" + pat, src))
+
+    def method_family(tname, star, n, oname="op", prefix="m"):
+        r = "*" + tname if star else tname
+        ds = []
+        for i in range(n):
+            t = TY[i][0]
+            ds.append("func (x %s) %s%s%d(v %s) int {\n\treturn x.n\n}\n" % (r, prefix, tname, i, t))
+        cands = "\n".join("\t(%s).%s%s%d" % (tname, prefix, tname, i) for i in range(n))
+        ds.append("func (%s).%s = (\n%s\n)\n" % (tname, oname, cands))
+        return "\n".join(ds)
+
+    for star in (True, False):
+        for n in (2, 3):
+            src = "type foo struct {\n\tn int\n}\n\n" + method_family("foo", star, n)
+            src += "\nvar a = %sfoo{2}\necho %s\n" % ("&" if star else "", ", ".join("a.op(%s)" % TY[i][1] for i in range(n)))
+            out.append(("ov-method-%s-%d" % ("ptr" if star else "val", n), src))
+    # the same overload name on two types
+    src = "type foo struct {\n\tn int\n}\n\ntype bar struct {\n\tn int\n}\n\n" + method_family("foo", True, 2) + "\n" + method_family("bar", False, 2)
+    src += "\nvar a = &foo{1}\nvar b = bar{2}\necho a.op(1), a.op(\"s\"), b.op(2), b.op(\"t\")\n"
+    out.append(("ov-method-two-types", src))
+    # a function overload and a method overload of the same name, in both orders
+    fpart = named_func("cand0", 0) + "\n" + named_func("cand1", 1) + "\nfunc op = (\n\tcand0\n\tcand1\n)\n"
+    mpart = method_family("foo", True, 2)
+    for order in ("func-first", "method-first"):
+        body = (fpart + "\n" + mpart) if order == "func-first" else (mpart + "\n" + fpart)
+        src = "type foo struct {\n\tn int\n}\n\n" + body + "\nvar a = &foo{3}\necho a.op(1), a.op(\"s\"), op(1, 2), op(\"a\", \"b\")\n"
+        out.append(("ov-same-name-" + order, src))
+    # operators
+    out.append(("ov-operators", """type V struct {
+	x int
+}
+
+func (a V) + (b V) V {
+	return V{a.x + b.x}
+}
+
+func (a V) - (b V) (r V) {
+	r = V{a.x - b.x}
+	return
+}
+
+func (a V) * (k int) V {
+	return V{a.x * k}
+}
+
+func -(a V) V {
+	return V{-a.x}
+}
+
+var p = V{1}
+var q = V{2}
+echo (p + q).x, (p - q).x, (p * 3).x, (-p).x
+"""))
+    return out
